@@ -1,0 +1,69 @@
+//go:build verif
+
+// Contracts for the deductive verification in /verif (govc): distinguished names
+// (property C22). This file contains comments only; it is compiled only with -tags verif
+// and declares nothing.
+
+package pkix
+
+// ---------------------------------------------------------------- attribute type OIDs
+// X.520 / RFC 4519 attribute types 2.5.4.x, RFC 4519 2.4 dc, PKCS #9 emailAddress,
+// CA/B Forum EV guidelines 9.2.4 jurisdiction*, ETSI EN 319 412-1 organizationIdentifier.
+//@ pred oid4(t, d) = len(t) == 4 && t[0] == 2 && t[1] == 5 && t[2] == 4 && t[3] == d
+//@ pred oidDC(t) = len(t) == 7 && t[0] == 0 && t[1] == 9 && t[2] == 2342 && t[3] == 19200300 && t[4] == 100 && t[5] == 1 && t[6] == 25
+//@ pred oidEmail(t) = len(t) == 7 && t[0] == 1 && t[1] == 2 && t[2] == 840 && t[3] == 113549 && t[4] == 1 && t[5] == 9 && t[6] == 1
+//@ pred oidJur(t, d) = len(t) == 11 && t[0] == 1 && t[1] == 3 && t[2] == 6 && t[3] == 1 && t[4] == 4 && t[5] == 1 && t[6] == 311 && t[7] == 60 && t[8] == 2 && t[9] == 1 && t[10] == d
+//@ global oid4(oidCommonName, 3) && oid4(oidSurname, 4) && oid4(oidSerialNumber, 5) && oid4(oidCountry, 6) && oid4(oidLocality, 7) && oid4(oidProvince, 8) && oid4(oidStreetAddress, 9)
+//@ global oid4(oidOrganization, 10) && oid4(oidOrganizationalUnit, 11) && oid4(oidPostalCode, 17) && oid4(oidGivenName, 42) && oid4(oidOrganizationID, 97)
+//@ global oidDC(oidDomainComponent) && oidEmail(oidDNEmailAddress)
+//@ global oidJur(oidJurisdictionLocality, 1) && oidJur(oidJurisdictionProvince, 2) && oidJur(oidJurisdictionCountry, 3)
+
+// a is the attribute (oid, v) with a string value
+//@ pred strVal(a, v) = typeis(a.Value, string) && unboxed(a.Value, string) == v
+//@ pred atvIs(a, oid, v) = same(a.Type, oid) && strVal(a, v)
+
+// ---------------------------------------------------------------- appendRDNs
+// "appends a relativeDistinguishedNameSET to the given RDNSequence and returns the new value.
+// The relativeDistinguishedNameSET contains an attributeTypeAndValue for each of the given
+// values"; nothing is appended for an empty value list.
+//@ pred ne(x) = ite(len(x) > 0, 1, 0)
+//@ func (Name).appendRDNs
+//@   loop 1 invariant fresh(s) && len(s) == len(values) && forall(k, 0, it, atvIs(s[k], oid, values[k]))
+//@   ensures len(result) == len(in) + ne(values)
+//@   ensures forall(j, 0, len(in), same(result[j], old(in[j])))
+//@   ensures len(values) == 0 ==> same(result, in)
+//@   ensures len(values) > 0 ==> len(result[len(in)]) == len(values) && forall(k, 0, len(values), atvIs(result[len(in)][k], oid, values[k]))
+//@   ensures len(values) > 0 ==> fresh(result[len(in)]) && (fresh(result) || samebase(result, in))
+//@   modifies elems(in, len(in), cap(in))
+//@   terminates
+
+// ---------------------------------------------------------------- ToRDNSequence
+//@ pred pCN(n) = 0
+//@ pred pEM(n) = pCN(n) + ne(n.CommonName)
+//@ pred pOU(n) = pEM(n) + ne(n.EmailAddress)
+//@ pred pO(n) = pOU(n) + ne(n.OrganizationalUnit)
+//@ pred pST(n) = pO(n) + ne(n.Organization)
+//@ pred pL(n) = pST(n) + ne(n.StreetAddress)
+//@ pred pP(n) = pL(n) + ne(n.Locality)
+//@ pred pPC(n) = pP(n) + ne(n.Province)
+//@ pred pC(n) = pPC(n) + ne(n.PostalCode)
+//@ pred pDC(n) = pC(n) + ne(n.Country)
+//@ pred pJL(n) = pDC(n) + ne(n.DomainComponent)
+//@ pred pJP(n) = pJL(n) + ne(n.JurisdictionLocality)
+//@ pred pJC(n) = pJP(n) + ne(n.JurisdictionProvince)
+//@ pred pOI(n) = pJC(n) + ne(n.JurisdictionCountry)
+//@ pred pSN(n) = pOI(n) + ne(n.OrganizationIDs)
+//@ pred pEX(n) = pSN(n) + ne(n.SerialNumber)
+
+//@ func (Name).ToRDNSequence
+//@   loop 1 invariant len(ret) == pEX(n) + it && (ret == nil || fresh(ret))
+//@   ensures [orig] n.OriginalRDNS != nil ==> same(ret, n.OriginalRDNS)
+//@   ensures [len] n.OriginalRDNS == nil ==> len(ret) == pEX(n) + len(n.ExtraNames)
+//@   modifies nothing
+//@   terminates
+
+// ---------------------------------------------------------------- CertificateList
+// time.Time is opaque (/verif/extern/time.contracts): only safety and termination.
+//@ func (*CertificateList).HasExpired
+//@   requires certList != nil
+//@   terminates
